@@ -508,3 +508,5 @@ def _replay(case):
     sw = [(i, c) for i, c in enumerate(x.choices) if c]
     return (f'requests {list(kinds)} on one application, threads switched at scheduling points {sw[:12]} '
             f'(of {len(x.choices)}): {v[1]}')
+
+MANIFEST['text'] += ' 20 request kinds, among them static_file downloads through the default application, the first error pages of a process, 405 answers with different Allow sets and routes guarded by route hooks (23 pairs + two triples in the quick tier).'
